@@ -180,9 +180,9 @@ Check(e) ==
                             /\ \A i \in 1..N(S) : e.q[i] = S.wq[i]
                             /\ e.same = 1
     [] e.ev = "reset" ->
-         /\ Mode = "C04" => SafeLoggedS(e, S, 1..N(S))          \* queues are unspecified between Reset and the re-spawn
-         /\ Mode \in {"C02", "C13", "C15"} => PostEq(e, ResetW(S), S.core, 1..N(S))
-         /\ Mode = "C13" => QryOK(e, ResetW(S), 1..N(S))
+         /\ Mode = "C04" => SafeLoggedS(e, S, {})               \* a reset warrior is not alive and holds no task (C04; D32)
+         /\ Mode \in {"C02", "C13", "C15"} => PostEq(e, ResetW(S), S.core, {})
+         /\ Mode = "C13" => QryOK(e, ResetW(S), {})
          /\ Mode = "C15" => DecRec(e.rec) = EmptyRec(S.M)
     [] e.ev = "rot" ->
          Mode = "C12" =>
@@ -225,7 +225,8 @@ NextT1(e) ==
     [] e.ev = "cycle" -> LET c == IF Mode = "C04" THEN S ELSE IF InProgress(S) \/ (PartialStart(S) /\ e.cycle # S.cycle) THEN CycleW(S).S ELSE S IN
                          [t EXCEPT !.S = Logged(e, c, S.core),
                                    !.rec = IF "rec" \in DOMAIN e THEN DecRec(e.rec) ELSE @]
-    [] e.ev = "reset" -> [t EXCEPT !.S = Logged(e, ResetW(S), S.core), !.stale = 1..N(S),
+    \* (Reset drops the process queues since the repair of D32: no warrior keeps stale tasks, nothing is exempt any more)
+    [] e.ev = "reset" -> [t EXCEPT !.S = Logged(e, ResetW(S), S.core), !.stale = {},
                                    !.rec = IF "rec" \in DOMAIN e THEN DecRec(e.rec) ELSE @]
     [] OTHER -> t
 
